@@ -118,6 +118,9 @@ func (p *parser) lowerNestingInRulesAndReturnRemaining(rules []css_ast.Rule, con
 
 func compoundSelectorTermCount(sel css_ast.CompoundSelector) int {
 	count := 0
+	if sel.TypeSelector != nil {
+		count++
+	}
 	for _, ss := range sel.SubclassSelectors {
 		count++
 		if list, ok := ss.Data.(*css_ast.SSPseudoClassWithSelectorList); ok {
